@@ -21,6 +21,7 @@ def run(ctx: Ctx) -> list[Ob]:
     obs += r11.r11d(ctx)
     obs += r4.gather_contracts(ctx) + r4.output_contract(ctx)
     obs += r3.r3g(ctx)
+    obs += r3.r3l(ctx) + r3.r3m(ctx)
     obs += r11.r11i(ctx)
     obs += r12b.param_rewrites(ctx)
     obs += r10.r10i(ctx)
@@ -52,11 +53,12 @@ SPEC = PropSpec(
         " R3g (a compiled circuit is also one compiled with fold=True): the address-book builders skip the gather of an operand only when its cumulative fold index equals range(<number of folds of the module it reads>) -- a bound derived from anything else hands a module more folds than it addresses, and every later slice offset is wrong."
         " R10i: no evaluation method of a torch-side module updates in place (augmented assignment, name_ method, item assignment) a tensor that aliases one of its arguments -- the arguments are the stored outputs of other modules, handed out as views by the address book."
         " R11i: every semiring's cast returns a floating-point tensor at its own precision (itself, or converted with a dtype derived from x.dtype), never at torch.get_default_dtype(). R12b also for the parameter-graph rewrites the optimiser applies (log-softmax fusion, reduce-sum of an outer product as an einsum): same shape, same element order."
+        " R3l: the offsets by which the address-book builders address fold j of input module k (offset[k] + j) are the exclusive prefix sums of the fold counts -- an accumulate / cumsum over num_folds with a leading 0, or a running variable updated additively; a running offset that is overwritten instead of accumulated is right for one or two input modules and reads another operand's folds from the third on. R3m: no order-changing operation (sorted, reversed, set, .sort()) is applied to a fold index in the modules that build and use address books: entry i of a fold index describes fold i, and the consumers read folds by position."
     ),
     not_decided=(
         "numerical equality with the denoted function (the value computed by a correctly shaped and correctly ordered "
         "expression); run-time address-book index arithmetic beyond the gather contracts R4g and the no-op shortcut R3g."
     ),
     run=run,
-    floors={"R10i": 40, "R3g": 2, "R4u": 10, "R7i": 2, "R4g": 6, "R11d": 2, "R4l": 2, "R12b": 7, "R1a": 38, "R1b": 38, "R1c": 170, "R1d": 10, "R4": 8, "R4b": 25, "R8": 12, "R11a": 12, "R11b": 12, "R11c": 10},
+    floors={"R3l": 2, "R3m": 8, "R10i": 40, "R3g": 2, "R4u": 10, "R7i": 2, "R4g": 6, "R11d": 2, "R4l": 2, "R12b": 7, "R1a": 38, "R1b": 38, "R1c": 170, "R1d": 10, "R4": 8, "R4b": 25, "R8": 12, "R11a": 12, "R11b": 12, "R11c": 10},
 )
